@@ -495,17 +495,18 @@ impl OpsWorld {
             }
         };
         match kind {
-            ReadVec | Recv | ReadLimited | ReadN => format!("bytes:{}", hx(&out.data)),
+            ReadVec | Recv | ReadLimited | ReadN | RecvN => format!("bytes:{}", hx(&out.data)),
+            ReadNVectored => format!("bytes:{}", split(&[3, 5]).join("|")),
             ReadVecPrefilled => format!("bytes:eeef{}", hx(&out.data)),
             ReadVectored2 => format!("bytes:{}", split(&[3, 4 + nth]).join("|")),
             RecvVectored => format!("bytes:{}:flags:0", split(&[2, 5]).join("|")),
             RecvFrom => format!("bytes:{}:from:{}:flags:0", hx(&out.data), addr()),
             RecvFromVectored => format!("bytes:{}:from:{}:flags:0", split(&[2, 3]).join("|"), addr()),
             WriteVec | WriteStatic | WriteString | WriteBoxed | WriteArc | WriteVectored2 | WriteVectoredTuple | Send
-            | SendZc | SendTo | SendToZc | SendVectored | SendVectoredZc => format!("n:{}", out.res),
+            | SendZc | SendTo | SendToZc | SendVectored | SendVectoredZc | SpliceTo | SpliceFrom | SendToVectored => format!("n:{}", out.res),
             ReadPool | RecvPool | MultishotRead | MultishotRecv => format!("buf:{}", hx(&out.data)),
             Accept => format!("fd:File:{}:from:{}", out.res, addr()),
-            AcceptNoAddr | MultishotAccept | OpenFile | Socket => format!("fd:File:{}", out.res),
+            AcceptNoAddr | MultishotAccept | OpenFile | Socket | OpenTemp => format!("fd:File:{}", out.res),
             OpenDirect | SocketDirect => format!("fd:Direct:{}", out.res),
             Pipe | PipeDirect => {
                 let k = if kind == Pipe { "File" } else { "Direct" };
@@ -517,9 +518,10 @@ impl OpsWorld {
                 let a = i32::from_ne_bytes(out.data[0..4].try_into().unwrap());
                 format!("fd:Direct:{a}")
             }
-            LocalAddr => format!("addr:{}", addr()),
+            LocalAddr | PeerAddr => format!("addr:{}", addr()),
             Connect | Bind | SetSockOpt | CreateDir | Rename | RemoveFile | Fsync | Truncate | Shutdown | WriteAll
-            | WriteAllVectored | SendAll | CloseFd => "unit".to_string(),
+            | WriteAllVectored | SendAll | CloseFd | Listen | SyncData | FAdvise | Allocate | MemAdvise | SendAllVectored
+            | Pollable => "unit".to_string(),
             SockOpt | Statx | WaitId => "opaque".to_string(),
         }
     }
@@ -545,7 +547,7 @@ impl OpsWorld {
                     }
                 }
             }
-            Class::StreamBuf | Class::StreamDesc => {
+            Class::StreamBuf | Class::StreamDesc | Class::StreamUnit => {
                 if s.items < c.max_items {
                     v.push((Oc::More, 0));
                 }
@@ -1071,6 +1073,18 @@ impl OpsWorld {
                 let sqe = simk::with(|k| unsafe { *k.rings[0].sqe_slot(tail_before) });
                 let sig = format!("cancel-unneeded/{kind:?}");
                 self.report("C06", &sig, format!("op {i} ({kind:?}) dropped while not in flight (phase {:?}) but a request was published: {}", self.slots[i].phase, sqe.describe()));
+            }
+        }
+        if kind.class() == Class::Composite && published != 0 {
+            // The model does not track which inner attempt a composite is in: a cancel
+            // is allowed (not demanded) while it runs, and must name this operation.
+            let sqe = simk::with(|k| unsafe { *k.rings[0].sqe_slot(tail_before) });
+            let running = self.slots[i].phase == Phase::Running;
+            if published == 1 && sqe.opcode() == OP_ASYNC_CANCEL && Some(sqe.addr()) == self.slots[i].ud && running && room {
+                self.slots[i].cancel_expected += 1;
+            } else {
+                let sig = format!("cancel-wrong-target/{kind:?}");
+                self.report("C06", &sig, format!("dropping op {i} ({kind:?}, user_data {:?}, phase {:?}) published {} entries, first: {}", self.slots[i].ud, self.slots[i].phase, published, sqe.describe()));
             }
         }
         for sel in self.sels.iter_mut().filter(|s| s.slot == i && s.state == SelState::InFlight) {
